@@ -87,11 +87,12 @@ def audit(prop: str, names):
     if not names:
         return {}, [f"no theorem registered for {prop}"]
     src = f"import GradysProofs.Properties.{prop}\n" + "".join(f"#print axioms {n}\n" for n in names)
-    with tempfile.NamedTemporaryFile("w", suffix=".lean", dir=LEAN, delete=False) as f:
+    (LEAN / ".lake").mkdir(exist_ok=True)
+    with tempfile.NamedTemporaryFile("w", suffix=".lean", dir=LEAN / ".lake", delete=False) as f:
         f.write(src)
         tmp = Path(f.name)
     try:
-        r = subprocess.run(["lake", "env", "lean", tmp.name], cwd=LEAN, stdout=subprocess.PIPE,
+        r = subprocess.run(["lake", "env", "lean", str(tmp)], cwd=LEAN, stdout=subprocess.PIPE,
                            stderr=subprocess.STDOUT, text=True)
     finally:
         tmp.unlink(missing_ok=True)
